@@ -56,7 +56,7 @@ def shape(t):
         return shape(t[3])
     if k in ("mulc", "scale"):
         return shape(t[2])
-    if k in ("real", "imag", "conj", "lsub", "lsubf"):
+    if k in ("real", "imag", "conj", "lsub", "lsubf", "mprod", "msum"):
         return shape(t[1])
     if k == "ptw":
         return shape(t[3])
@@ -134,6 +134,15 @@ class Impl:
             return self.op(t[2]).scale(t[1])
         if k == "ptw":
             return self.op(t[3]).ptw(t[1], *t[2])
+        if k in ("mprod", "msum"):
+            # product / sum of two operators with a MULTIDOMAIN target {'x': ., 'y': .}, read back key by key:
+            #   M1 = f.ducktape_left('x') + g.ducktape_left('y');  M2 = h.ducktape_left('x') + k.ducktape_left('y')
+            #   P = M1 * M2  (or M1 + M2);   result = P['x'] + P['y']      (the SAME object P twice)
+            f, g, h, kk = [self.op(u) for u in t[1:5]]
+            M1 = f.ducktape_left("x") + g.ducktape_left("y")
+            M2 = h.ducktape_left("x") + kk.ducktape_left("y")
+            Pm = M1 * M2 if k == "mprod" else M1 + M2
+            return Pm["x"] + Pm["y"]
         if k in ("lsub", "lsubf"):
             # LINEAR difference (SumOperator with a negated summand) of two linear operators;
             # lsub: through a MultiDomain target {'x': .} (ducktape_left) and back, lsubf: field target
@@ -195,6 +204,10 @@ class Impl:
             return self.lin(t[2], l0) * t[1]
         if k == "ptw":
             return self.lin(t[3], l0).ptw(t[1], *t[2])
+        if k == "mprod":
+            return self.lin(t[1], l0) * self.lin(t[3], l0) + self.lin(t[2], l0) * self.lin(t[4], l0)
+        if k == "msum":
+            return (self.lin(t[1], l0) + self.lin(t[3], l0)) + (self.lin(t[2], l0) + self.lin(t[4], l0))
         if k in ("lsub", "lsubf"):
             return self.lin(t[1], l0) - self.lin(t[2], l0)
         if k == "real":
@@ -237,6 +250,7 @@ class Impl:
         if not want_dense:
             out["_lin"] = lin
             out["_dkeys"] = dkeys
+            out["_op"] = op if om else None
             return out
         m = len(out["plain"])
         jdom = lin.jac.domain
@@ -357,6 +371,14 @@ def ref(t, x, n):
         r = [u + w for u, w in zip(ref(t[1], x, n), ref(t[2], x, n))]
     elif k in ("lsub", "lsubf"):
         r = [u - w for u, w in zip(ref(t[1], x, n), ref(t[2], x, n))]
+    elif k == "mprod":
+        f, g, h, kk = [ref(u, x, n) for u in t[1:5]]
+        for a, b in list(zip(f, h)) + list(zip(g, kk)):
+            small(a * b)
+        r = [a * c + b * d for a, b, c, d in zip(f, g, h, kk)]
+    elif k == "msum":
+        f, g, h, kk = [ref(u, x, n) for u in t[1:5]]
+        r = [a + c + b + d for a, b, c, d in zip(f, g, h, kk)]
     elif k == "sum":
         r = [sum(ref(t[1], x, n))]
     elif k == "vdot":
@@ -412,6 +434,10 @@ def pathmag(t, x, n):
         a1, l1 = pathmag(t[1], x, n)
         a2, l2 = pathmag(t[2], x, n)
         return max(a1 * mx(ref(t[2], x, n)), a2 * mx(ref(t[1], x, n))), l1 + l2
+    if k in ("mprod", "msum"):
+        ps = [pathmag(u, x, n) for u in t[1:5]]
+        vs = [mx(ref(u, x, n)) for u in t[1:5]] if k == "mprod" else [1, 1, 1, 1]
+        return max(ps[0][0] * vs[2], ps[2][0] * vs[0], ps[1][0] * vs[3], ps[3][0] * vs[1]), sum(p[1] for p in ps)
     if k in ("add", "eadd", "lsub", "lsubf"):
         a1, l1 = pathmag(t[1], x, n)
         a2, l2 = pathmag(t[2], x, n)
@@ -605,6 +631,11 @@ def cexpr(t, n):
         return "(Mul %s %s)" % (cexpr(t[1], n), cexpr(t[2], n))
     if k == "add":
         return "(Add %s %s)" % (cexpr(t[1], n), cexpr(t[2], n))
+    if k == "mprod":
+        # multi-output product read back key by key: modelled by its meaning f*h + g*k
+        return "(Add (Mul %s %s) (Mul %s %s))" % (cexpr(t[1], n), cexpr(t[3], n), cexpr(t[2], n), cexpr(t[4], n))
+    if k == "msum":
+        return "(Add (Add %s %s) (Add %s %s))" % (cexpr(t[1], n), cexpr(t[3], n), cexpr(t[2], n), cexpr(t[4], n))
     if k in ("lsub", "lsubf"):
         # the linear SumOperator a - b is modelled by its meaning  a + (-1)*b
         return "(Add %s (Scale (q (-1) 1) %s))" % (cexpr(t[1], n), cexpr(t[2], n))
@@ -754,6 +785,125 @@ def ein_direct(c, seed):
 
 
 # ======================================================================================================
+# partial contractions on product domains with volume elements
+# ======================================================================================================
+
+GRIDS = [  # (shapes of the sub-spaces, distances)
+    [((4,), (0.5,)), ((3, 2), (0.25, 1.5))],
+    [((2,), (2.0,)), ((3,), (0.5,))],
+    [((2, 2), (0.5, 0.5)), ((2,), (4.0,))],
+    [((3,), (1.0,)), ((2,), (0.25,))],
+    [((2,), (0.5,)), ((2,), (2.0,)), ((2,), (0.25,))],
+]
+GRID_MODELS = ["a*b", "a**2+b", "(a*b)**3", "a*a*b"]
+
+
+def grid_cases(ngrids):
+    out = []
+    for gi in range(ngrids):
+        g = GRIDS[gi % len(GRIDS)]
+        ns = len(g)
+        subsets = [None] + [(i,) for i in range(ns)] + ([(0, 1)] if ns > 2 else []) + [tuple(range(ns))]
+        for sp in subsets:
+            for meth in ("sum", "integrate"):
+                for route in ("linearization", "operator"):
+                    out.append({"kind": "contract", "grid": gi % len(GRIDS), "spaces": None if sp is None else list(sp),
+                                "method": meth, "route": route, "model": (gi + len(out)) % len(GRID_MODELS)})
+    return out
+
+
+def grid_build(ift, c):
+    g = GRIDS[c["grid"]]
+    dom = ift.DomainTuple.make([ift.RGSpace(sh, distances=ds) for sh, ds in g])
+    a, b = ift.FieldAdapter(dom, "a"), ift.FieldAdapter(dom, "b")
+    op = {"a*b": a * b, "a**2+b": a.ptw("power", 2) + b, "(a*b)**3": (a * b).ptw("power", 3), "a*a*b": a * a * b}[GRID_MODELS[c["model"]]]
+    return dom, op
+
+
+def grid_table(c):
+    """flat source indices per target pixel, target shape, weight of `integrate`"""
+    g = GRIDS[c["grid"]]
+    shapes = [sh for sh, _ in g]
+    full = tuple(x for sh in shapes for x in sh)
+    sp = list(range(len(g))) if c["spaces"] is None else list(c["spaces"])
+    axes, off = [], 0
+    for i, sh in enumerate(shapes):
+        if i in sp:
+            axes += list(range(off, off + len(sh)))
+        off += len(sh)
+    idx = np.arange(int(np.prod(full))).reshape(full)
+    keep = [ax for ax in range(len(full)) if ax not in axes]
+    moved = np.transpose(idx, keep + axes).reshape(int(np.prod([full[k] for k in keep])) if keep else 1, -1)
+    w = Fraction(1)
+    for i in sp:
+        for dd in g[i][1]:
+            w *= Fraction(dd)
+    return moved.tolist(), (w if c["method"] == "integrate" else Fraction(1))
+
+
+def grid_observe(c, vals):
+    """dense value/Jacobian before and after the contraction (flat, row-major); vals = {'a': flat, 'b': flat}"""
+    import nifty.cl as ift
+    dom, op = grid_build(ift, c)
+    X = ift.MultiField.from_dict({k: ift.Field.from_raw(dom, np.array(v, dtype=float).reshape(dom.shape)) for k, v in vals.items()})
+    sp = None if c["spaces"] is None else tuple(c["spaces"])
+    lin0 = op(ift.Linearization.make_var(X))
+    if c["route"] == "linearization":
+        lin1 = getattr(lin0, c["method"])(sp)
+    else:
+        op1 = getattr(op, c["method"])(sp)
+        lin1 = op1(ift.Linearization.make_var(X))
+        plain1 = op1(X)
+        if not np.allclose(np.asarray(plain1.asnumpy()), np.asarray(lin1.val.asnumpy()), rtol=1e-13, atol=0):
+            raise ValueError("plain value and Linearization value of the contracted operator differ")
+    cols0, cols1 = [], []
+    for k in ("a", "b"):
+        for e in range(dom.size):
+            d = {kk: np.zeros(dom.shape) for kk in ("a", "b")}
+            d[k].reshape(-1)[e] = 1.0
+            D = ift.MultiField.from_dict({kk: ift.Field.from_raw(dom, v) for kk, v in d.items()})
+            cols0.append(np.asarray(lin0.jac(D).asnumpy()).reshape(-1).tolist())
+            cols1.append(np.asarray(lin1.jac(D).asnumpy()).reshape(-1).tolist())
+    # adjoint of the contracted Jacobian against its own TIMES (transpose)
+    m1 = int(np.asarray(lin1.val.asnumpy()).size)
+    for f in range(m1):
+        y = np.zeros(lin1.jac.target.shape)
+        y.reshape(-1)[f] = 1.0
+        r = lin1.jac.adjoint_times(ift.Field.from_raw(lin1.jac.target, y)).asnumpy()
+        row = np.concatenate([np.asarray(r[k]).reshape(-1) for k in ("a", "b")])
+        if not np.allclose(row, np.array([cc[f] for cc in cols1]), rtol=1e-12, atol=1e-12):
+            raise ValueError("ADJOINT_TIMES of the contracted Jacobian is not the transpose of TIMES")
+    return {"val0": np.asarray(lin0.val.asnumpy()).reshape(-1).tolist(), "cols0": cols0,
+            "val1": np.asarray(lin1.val.asnumpy()).reshape(-1).tolist(), "cols1": cols1}
+
+
+def grid_coq(c, o):
+    tbl, w = grid_table(c)
+    return "check_contract %s %s %s %s %s %s" % (cqc(w), C.clist([C.clist(["%d" % i for i in row]) for row in tbl]),
+                                                  cl1(o["val0"]), cl2(o["cols0"]), cl1(o["val1"]), cl2(o["cols1"]))
+
+
+def grid_direct(c, seed):
+    """the same on the implementation alone, random float values: contraction formula with the volume weights and
+    finite differences of the contracted operator"""
+    import nifty.cl as ift
+    rng = np.random.default_rng([seed, 606])
+    dom, op = grid_build(ift, c)
+    vals = {k: rng.uniform(-1.5, 1.5, size=dom.size) for k in ("a", "b")}
+    o = grid_observe(c, vals)
+    tbl, w = grid_table(c)
+    w = float(w)
+    want = [w * sum(o["val0"][i] for i in row) for row in tbl]
+    if not np.allclose(o["val1"], want, rtol=1e-12, atol=1e-12):
+        return ("value", "%s(spaces=%r) [%s route]: value %r, weighted contraction %r" % (c["method"], c["spaces"], c["route"], o["val1"], want))
+    for c0, c1 in zip(o["cols0"], o["cols1"]):
+        wj = [w * sum(c0[i] for i in row) for row in tbl]
+        if not np.allclose(c1, wj, rtol=1e-12, atol=1e-12):
+            return ("jacobian", "%s(spaces=%r) [%s route]: Jacobian column %r, weighted contraction of the inner column %r" % (c["method"], c["spaces"], c["route"], c1, wj))
+    return None
+
+
+# ======================================================================================================
 # numeric tie of the translator
 # ======================================================================================================
 
@@ -828,6 +978,94 @@ HOLO_PTW = [("sin", [], lambda v: abs(v) < 3), ("cos", [], lambda v: abs(v) < 3)
             ("sinc", [], lambda v: 0.1 < abs(v) < 3), ("arctan", [], lambda v: abs(v) < 0.8),
             ("log", [], lambda v: v.real > 0.3 and abs(v) < 30), ("sqrt", [], lambda v: v.real > 0.3 and abs(v) < 30),
             ("log1p", [], lambda v: v.real > -0.6 and abs(v) < 30), ("exponentiate", [2.0], lambda v: abs(v) < 4)]
+
+
+def jax_direct(inp):
+    """JaxOperator (derivatives from JAX autodiff; not modelled): value, J.d against finite differences, adjointness,
+    and the call HISTORY  lin1 = op(var(x1)); lin2 = op(var(x2)); then lin1.jac / lin1.jac.adjoint are used."""
+    import nifty.cl as ift
+    import jax.numpy as jnp
+    n, seed, fi = inp["n"], inp["seed"], inp["func"]
+    rng = np.random.default_rng([seed, 909])
+    dom = ift.DomainTuple.make(ift.UnstructuredDomain(n))
+    funcs = [lambda v: jnp.sin(v) * v, lambda v: jnp.exp(0.5 * v) + v ** 2, lambda v: jnp.tanh(v) * jnp.roll(v, 1), lambda v: v ** 3 - jnp.cos(v)]
+    f = funcs[fi % len(funcs)]
+    op = ift.JaxOperator(dom, dom, f)
+    if inp.get("compose"):
+        op = op.ptw("tanh") + op          # the same JaxOperator object twice inside one expression
+    fld = lambda a: ift.Field.from_raw(dom, np.array(a, dtype=float))
+    x1, x2, d, y = [rng.normal(size=n) for _ in range(4)]
+
+    def fdj(xx):
+        h = 1e-3
+        g = lambda s: op(fld(xx + s * d)).asnumpy()
+        D1, D2 = (g(h) - g(-h)) / (2 * h), (g(h / 2) - g(-h / 2)) / h
+        return (4 * D2 - D1) / 3
+
+    l1 = op(ift.Linearization.make_var(fld(x1)))
+    if not np.allclose(l1.val.asnumpy(), op(fld(x1)).asnumpy(), rtol=1e-12, atol=1e-12):
+        return ("value", "JaxOperator: Linearization value differs from plain evaluation")
+    j1 = l1.jac(fld(d)).asnumpy()
+    a1 = l1.jac.adjoint_times(fld(y)).asnumpy()
+    fd1 = fdj(x1)
+    if not np.allclose(j1, fd1, rtol=1e-6, atol=1e-7):
+        return ("jacobian_fd", "JaxOperator: J.d = %r, finite differences %r" % (j1.tolist(), fd1.tolist()))
+    if abs(np.vdot(y, j1) - np.vdot(a1, d)) > 1e-9 * (1 + abs(np.vdot(y, j1))):
+        return ("adjoint", "JaxOperator: <y, J d> != <J^T y, d>")
+    l2 = op(ift.Linearization.make_var(fld(x2)))
+    j1b = l1.jac(fld(d)).asnumpy()
+    a1b = l1.jac.adjoint_times(fld(y)).asnumpy()
+    if not np.allclose(j1b, j1, rtol=1e-12, atol=1e-13) or not np.allclose(a1b, a1, rtol=1e-12, atol=1e-13):
+        return ("history", "JaxOperator: after linearizing the same operator at a second point the FIRST Jacobian gives J1.d = %r (before: %r)"
+                % (j1b.tolist(), j1.tolist()))
+    j2 = l2.jac(fld(d)).asnumpy()
+    if not np.allclose(j2, fdj(x2), rtol=1e-6, atol=1e-7):
+        return ("jacobian_fd", "JaxOperator: second Linearization has a wrong Jacobian")
+    s = (l1 + l2).jac(fld(d)).asnumpy()
+    if not np.allclose(s, j1 + j2, rtol=1e-10, atol=1e-12):
+        return ("history", "JaxOperator: Jacobian of lin1 + lin2 is not J1 + J2")
+    return None
+
+
+def nonsquare_direct(inp):
+    """Key extraction / insertion / transposition on NON-SQUARE Linearizations (Jacobian domain != value domain), and the
+    adjoint of a complex-valued JaxOperator for a real cotangent.  Returns a list of (check, detail)."""
+    import nifty.cl as ift
+    rng = np.random.default_rng([inp.get("seed", 0), 808])
+    fails = []
+    dom = ift.DomainTuple.make(ift.UnstructuredDomain(2))
+    a, b = ift.FieldAdapter(dom, "a"), ift.FieldAdapter(dom, "b")
+    av, bv, da, db = [rng.normal(size=2) for _ in range(4)]
+    X = ift.MultiField.from_dict({"a": ift.Field.from_raw(dom, av), "b": ift.Field.from_raw(dom, bv)})
+    D = ift.MultiField.from_dict({"a": ift.Field.from_raw(dom, da), "b": ift.Field.from_raw(dom, db)})
+    which = inp["which"]
+    try:
+        if which == "ducktape_left":      # multi -> field Linearization, wrapped into {'y': .}
+            l = (a * b)(ift.Linearization.make_var(X)).ducktape_left("y")
+            ok = np.allclose(l.val["y"].asnumpy(), av * bv) and np.allclose(l.jac(D)["y"].asnumpy(), av * db + bv * da)
+        elif which == "getitem":          # field -> multi Linearization, key extraction
+            f = ift.Field.from_raw(dom, av)
+            opm = ift.ScalingOperator(dom, 1.).exp().ducktape_left("u") + ift.ScalingOperator(dom, 1.).tanh().ducktape_left("v")
+            l = opm(ift.Linearization.make_var(f))["v"]
+            ok = np.allclose(l.val.asnumpy(), np.tanh(av)) and np.allclose(l.jac(ift.Field.from_raw(dom, da)).asnumpy(), (1 - np.tanh(av) ** 2) * da)
+        elif which == "transpose":
+            d2 = ift.DomainTuple.make((ift.UnstructuredDomain(2), ift.UnstructuredDomain(3)))
+            v, dv = rng.normal(size=(2, 3)), rng.normal(size=(2, 3))
+            X2 = ift.MultiField.from_dict({"a": ift.Field.from_raw(d2, v)})
+            l = ift.FieldAdapter(d2, "a").exp()(ift.Linearization.make_var(X2)).transpose((1, 0))
+            j = l.jac(ift.MultiField.from_dict({"a": ift.Field.from_raw(d2, dv)})).asnumpy()
+            ok = np.allclose(l.val.asnumpy(), np.exp(v).T) and np.allclose(j, (np.exp(v) * dv).T)
+        else:                             # jax: Re exp(i v), gradient for a real cotangent
+            import jax.numpy as jnp
+            jop = ift.JaxOperator(dom, dom, lambda v: jnp.exp(1j * v))
+            l = jop.real(ift.Linearization.make_var(ift.Field.from_raw(dom, av)))
+            g = l.jac.adjoint_times(ift.Field.from_raw(dom, bv)).asnumpy()
+            ok = np.allclose(g, -np.sin(av) * bv)
+        if not ok:
+            fails.append((which, "wrong value or Jacobian"))
+    except Exception as e:
+        fails.append((which, "raises %s: %s" % (type(e).__name__, str(e)[:120])))
+    return fails
 
 
 # real / imaginary part / conjugate of complex intermediates (Linearization.real/.imag/.conjugate and the
@@ -974,6 +1212,28 @@ def fd_check(impl, t, x, dirs, wm=False, om=True, h=2e-3, tol=2e-5):
             lhs, rhs = lhs.real, rhs.real
         if abs(lhs - rhs) > 1e-9 * (1 + abs(lhs) + abs(rhs)):
             return ("adjoint", "<y, J d> = %r but <J^dagger y, d> = %r" % (lhs, rhs))
+    # call history: linearizing the SAME operator object at another point must not change the first Linearization
+    if om and dirs:
+        d = dirs[0]
+        dm = ift.MultiField.from_dict({kk: ift.Field.from_raw(impl.dom, np.array(d[int(kk[1:])], dtype=impl.dtype)) for kk in dkeys},
+                                      domain=lin.jac.domain)
+        j_before = np.atleast_1d(lin.jac(dm).asnumpy()).copy()
+        op0 = o.get("_op")
+        if op0 is not None:
+            x2 = [[x[k][j] + 0.01 * (1 + j + k) for j in range(impl.n)] for k in range(impl.K)]
+            try:
+                with np.errstate(all="ignore"):
+                    op0(ift.Linearization.make_var(impl.point(x2).extract(op0.domain), wm))
+                second = True
+            except Exception:
+                second = False      # the second point may be outside a pointwise function's domain: no history then
+            if second:
+                j_after = np.atleast_1d(lin.jac(dm).asnumpy())
+                if not np.array_equal(j_before, j_after) and not np.allclose(j_before, j_after, rtol=1e-13, atol=0):
+                    return ("history", "J.d of the first Linearization changed from %r to %r after the same operator was linearized at another point"
+                            % (j_before.tolist(), j_after.tolist()))
+                if not np.allclose(np.atleast_1d(lin.val.asnumpy()), lv, rtol=0, atol=0):
+                    return ("history", "the value of the first Linearization changed after the same operator was linearized at another point")
     if is_energy:
         nonneg = _scales_nonneg(t)
         if wm and nonneg and lin.metric is None:
@@ -1173,16 +1433,33 @@ class C03(C.Check):
             except Exception as e:
                 checks.append("false")
                 meta.append((ci, "einsum raised %s: %s" % (type(e).__name__, str(e)[:200])))
+        # partial contractions on product domains with non-unit volume elements
+        gcases = grid_cases(2 if ctx.quick else len(GRIDS))
+        self.gcases = gcases
+        for gi, c in enumerate(gcases):
+            cases.append({"kind": "contract", "tree": ("contract", c["method"], c["route"]), "x": [], "n": 0, "K": 0, "ein": c})
+            ci = len(cases) - 1
+            size = int(np.prod([x for sh, _ in GRIDS[c["grid"]] for x in sh]))
+            vals = {k: [float(rng_e.integers(-2, 3)) for _ in range(size)] for k in ("a", "b")}
+            try:
+                checks.append(grid_coq(c, grid_observe(c, vals)))
+                meta.append((ci, "contract"))
+            except Exception as e:
+                checks.append("false")
+                meta.append((ci, "contract raised %s: %s" % (type(e).__name__, str(e)[:200])))
         bad = eval_cases_private(self.prop, HEADER, checks)
         for i in bad[:4]:
             ci, how = meta[i]
             c = cases[ci]
+            if c["kind"] == "contract":
+                res.add_broken("correspondence", "Linearization.sum/integrate(spaces) vs coq/C03/Contract.v", dict(c["ein"], mode=how))
+                continue
             if c["kind"] == "einsum":
                 res.add_broken("correspondence", "MultiLinearEinsum vs coq/C03/Einsum.v", dict(c["ein"], mode=how))
                 continue
             res.add_broken("correspondence", "Linearization algebra vs coq/C03/Model.v",
                            {"kind": c["kind"], "tree": tolist(c["tree"]), "x": c["x"], "n": c["n"], "K": c["K"], "mode": how})
-        hints += [("case", meta[i][0]) for i in bad if cases[meta[i][0]]["kind"] != "einsum"]
+        hints += [("case", meta[i][0]) for i in bad if cases[meta[i][0]]["kind"] not in ("einsum", "contract")]
         hints += [("einsum", cases[meta[i][0]]["ein"]) for i in bad if cases[meta[i][0]]["kind"] == "einsum"]
         nontriv = {json.dumps(tolist(c["tree"])) for c in cases if depth_of(c["tree"]) >= 3 and
                    (kinds(c["tree"]) & {"mul", "vdot", "sq2", "gauss"} or any(k.startswith("ptw:") for k in kinds(c["tree"])))}
@@ -1244,7 +1521,7 @@ class C03(C.Check):
         lim = (40 if ctx.quick else 300) * budget
         for ci in order[:lim]:
             c = self.cases[ci]
-            if c["kind"] == "einsum":
+            if c["kind"] in ("einsum", "contract"):
                 continue
             if "ptw:power" in kinds(c["tree"]) and any(abs(v) < 1e-9 for row in c["x"] for v in row):
                 continue
@@ -1271,6 +1548,36 @@ class C03(C.Check):
                 f = ("raised", "%s: %s" % (type(e).__name__, str(e)[:300]))
             if f:
                 res.add_failing({"fn": "MultiLinearEinsum", "check": f[0], "key_order_sorted": c["key_order"] == sorted(c["key_order"])}, f[1], inp)
+        # 2a''. partial contractions on product domains (sum / integrate over sub-spaces), float values
+        for gi, c in enumerate(getattr(self, "gcases", [])):
+            nev += 1
+            inp = {"kind": "direct", "what": "contract", "ein": c, "seed": ctx.seed * 100 + gi}
+            try:
+                f = run_direct(inp)
+            except Exception as e:
+                f = ("raised", "%s: %s" % (type(e).__name__, str(e)[:300]))
+            if f:
+                res.add_failing({"fn": "Linearization.%s" % c["method"] if c["route"] == "linearization" else "Operator.%s" % c["method"],
+                                 "check": f[0], "spaces": c["spaces"]}, f[1], inp)
+        # 2a0. non-square Linearizations: key extraction / insertion / transpose; jax adjoint with a real cotangent
+        for which in ("ducktape_left", "getitem", "transpose", "jax_real_cotangent"):
+            nev += 1
+            inp = {"kind": "direct", "what": "nonsquare", "which": which, "seed": ctx.seed}
+            for f in nonsquare_direct(inp):
+                fn = "JaxLinearOperator" if which == "jax_real_cotangent" else "Linearization"
+                res.add_failing({"fn": fn, "check": "real_cotangent" if fn == "JaxLinearOperator" else "nonsquare", "method": which},
+                                "%s on a non-square Linearization: %s" % (which, f[1]) if fn == "Linearization" else
+                                "adjoint of a complex-valued JaxOperator for a real cotangent: %s" % f[1], inp)
+        # 2a'. JaxOperator: single use and call histories (linearize at x1, at x2, then use J1)
+        for ji in range((4 if ctx.quick else 16) * budget):
+            nev += 1
+            inp = {"kind": "direct", "what": "jax", "n": 2 + ji % 3, "seed": ctx.seed * 100 + ji, "func": ji, "compose": ji % 2 == 1}
+            try:
+                f = run_direct(inp)
+            except Exception as e:
+                f = ("raised", "%s: %s" % (type(e).__name__, str(e)[:300]))
+            if f:
+                res.add_failing({"fn": "JaxOperator", "check": f[0]}, f[1], inp)
         # 2b. fixed probes: real / imaginary part / conjugate taken on complex Linearizations (both routes)
         for pi, t in enumerate(COMPLEX_PROBES):
             n, K = 2, 2
@@ -1398,6 +1705,13 @@ def run_direct(inp):
     from nifty.cl import pointwise
     if inp["what"] == "einsum":
         return ein_direct(inp["ein"], inp.get("seed", 0))
+    if inp["what"] == "nonsquare":
+        f = nonsquare_direct(inp)
+        return f[0] if f else None
+    if inp["what"] == "jax":
+        return jax_direct(inp)
+    if inp["what"] == "contract":
+        return grid_direct(inp["ein"], inp.get("seed", 0))
     if inp["what"] == "entry":
         x = complex(*inp["x"]) if inp.get("cplx") else inp["x"]
         return entry_fd(pointwise, inp["name"], inp["args"], x, cplx=bool(inp.get("cplx")))
